@@ -28,7 +28,7 @@ def run_shard(desc):
     base_ctx = {k: ref.value_from_json(v) for k, v in gen.ORDER_VARS.items()}
     for k, b in gen.ORDER_FNS.items():
         base_ctx[k] = ("fn", ref.Beh(b["id"], b["log"], b["ret"], ref.value_from_json(b["v"]) if "v" in b else None))
-    rend = ref.Renderer(table=model["table"])
+    rend = ref.Renderer(table=model["table"], rnd=rnd)
     ctree = canary_tree()
     steps = []
     cases = []  # (first step index, tree, text, fault, threaded)
